@@ -16,10 +16,10 @@ from fractions import Fraction as F
 import common, translate, lpdump, gencheck, gencheck_enc, e1misc
 
 PROOFS = {"encode_msc": "EncMscSpec.v", "encode_mef": "EncMefSpec.v", "encode_mef_obj": "EncMefObjSpec.v",
-          "encode_mgs_sym": "EncMgsSymSpec.v", "encode_mgs_part": "EncMgsPartSpec.v", "encode_mgs": "EncMgsSpec.v"}
+          "encode_mgs": "EncMgsSpec.v"}
 HELPERS = {"binprod": "BinProdSpec.v", "intprod": "IntProdSpec.v"}
 FAMILIES = {
-    "c15": dict(targets=["encode_msc", "encode_mgs_sym", "encode_mgs_part", "encode_mgs"], helpers=["binprod", "intprod"], transfer=["EncMscTransfer.v", "EncMgsTransfer.v"],
+    "c15": dict(targets=["encode_msc", "encode_mgs"], helpers=["binprod", "intprod"], transfer=["EncMscTransfer.v", "EncMgsTransfer.v"],
                 what="the transfer theorems (gen_msc_exact, gen_msc_no_model, gen_mgs_lp, gen_mgs_gives_generating_multiset, gen_mgs_feasible_iff)"),
     "c16": dict(targets=["encode_mef", "encode_mef_obj"], transfer=["EncMefTransfer.v"], what="the transfer theorems (gen_mef_lp, gen_mef_exact)"),
 }
